@@ -137,6 +137,17 @@ def oracle(case, impl):
     return bad
 
 
+def oracle2(case, impl, model):
+    """The sender's state, as the model computes it from the history (and as `read` / `localstate` confirm on the implementation
+    for the entries and tombstones), is what a peer must receive - including the per-origin accept/refuse cut-offs, which the
+    sender itself only shows through its decisions."""
+    bad = []
+    for line, o, m in zip(case, impl, model):
+        if line.startswith('fetchstate') and m not in ('unknown', 'bad-op') and o.startswith('state ') and canon(line, o) != canon(line, m):
+            bad.append('%s: the received state differs from the sender\'s state: received %s, sender %s' % (line, canon(line, o)[:160], canon(line, m)[:160]))
+    return bad
+
+
 def explain(v):
     """D12: the nested set bytes of a GetState reply are decoded unchecked.  rkyv cannot be modelled, so the
     model side of a `badstate` line is the specification itself (`rejected`); the violation is attributed to the
